@@ -55,6 +55,10 @@ CLAIMED = {
             "deterministic simulation: same world and argv run in 2-6 simulated processes differing in hash seed, glob enumeration order, read/write chunking, EINTR and clock; outputs compared byte for byte",
             "The property is schedule independence, and the simulator owns every schedule okane depends on: per-process hash keys (content-hashed interned strings + seeded SipHash for every HashMap/HashSet in okane), glob enumeration order, stream chunking with short reads/writes and EINTR, and the calendar date. Each seeded world (accepted and failing ledgers, multi-commodity accounts, price diamonds, include trees) is run with 2-6 commands in 2-6 processes; stdout bytes, success/failure and the rendered error chain must be identical.",
             "Hash maps inside dependencies keep RandomState (their order never reaches output). Simulated orders are a subset of what production can produce."),
+    "C20": ("fault_enumeration",
+            "deterministic simulation with fault injection: Golden::new / Golden::assert against a simulated file and environment; the matrix UPDATE_GOLDEN x file state x fault (read error, write refused, torn write) x environment flip x third-party edit is enumerated cell by cell, contents are seeded, cycles share one durable file; outcomes compared with a reference model of the statement",
+            "okane_golden::Golden runs against a simulated golden file and environment through the seam in golden/src/verif.rs. The run index selects one of the 192 cells of UPDATE_GOLDEN in {unset, '', '1', '0'} x file {absent, present} x fault {none, read error, write refused at open, write torn after k bytes} x environment flipped between new and assert x third party {nothing, edit, remove} for the first new/assert cycle, so every cell is visited equally often; contents and `got` are seeded; further drawn cycles reuse the file earlier ones wrote. Oracle = the statement: assert returns iff got equals the content with CRLF normalised; zero write calls and an unchanged file whenever UPDATE_GOLDEN is unset or empty at the call; new on an absent file fails unless updating; after a successful update the file holds exactly got; a failed update must panic.",
+            "The matrix is exhaustive (evidence: schedules.distinct_matrix_cells = 192); contents within a cell are sampled. What assert compares against after a third-party edit or an update/no-update flip is DONT_CARE."),
 }
 
 NOT_BUILT = {}
